@@ -1,3 +1,182 @@
-(* C04 - KVStore views and wrappers obey one ordered-map contract. Statements only. (placeholder, filled later) *)
-From Coq Require Import NArith List.
-From Verif.C04_KV Require Import Model.
+(* C04 - KVStore views and wrappers obey one ordered-map contract. Statements only.
+   Model: C04_KV/Model.v (mapdb + realm views + batches + flushkv/debug stacks, `run`) and the specification
+   `srun`: ONE association list kept in strictly ascending full-key order, views = realms, no wrappers,
+   a batch = the list of its calls replayed in order on Commit.
+   Not expressible in a value model (checked by the correspondence harness only, see notes/C04.md):
+   "values returned by reads are private copies and mutating a caller's buffer after Set or Commit has
+   returned does not change stored data". *)
+From Coq Require Import NArith List Bool Sorting.Sorted.
+From Verif.C04_KV Require Import Model Lemmas Proofs Char.
+Import ListNotations.
+Open Scope N_scope.
+
+(* CENTRAL: for every history over every tree of views, wrapper stacks and batches, every result, the debug
+   log, the contents and the closed flag equal those of the single ordered map. *)
+Theorem C04_refines : forall h : list op,
+  snd (run init h) = snd (srun sinit h) /\
+  log (w_st (fst (run init h))) = s_log (fst (srun sinit h)) /\
+  (forall k, abs (w_st (fst (run init h))) k = lookup k (s_map (fst (srun sinit h)))) /\
+  closed (w_st (fst (run init h))) = s_closed (fst (srun sinit h)).
+Proof. exact refines. Qed.
+
+Theorem C04_spec_is_ordered_map : forall h, SS bleb (s_map (fst (srun sinit h))).
+Proof. exact spec_map_sorted. Qed.
+
+Theorem C04_reachable_inv : forall h, Inv (w_st (fst (run init h))).
+Proof. exact reachable_inv. Qed.
+
+(* Get/Has see the last write; missing keys give ErrKeyNotFound / false; reads change nothing. *)
+Theorem C04_get_spec : forall stk r k s, closed s = false ->
+  snd (exec stk r (KGet k) s) = match abs s (r ++ k) with Some v => OVal v | None => ONotFound end
+  /\ snd (exec stk r (KHas k) s) = OBool (match abs s (r ++ k) with Some _ => true | None => false end)
+  /\ (forall k', abs (fst (exec stk r (KGet k) s)) k' = abs s k')
+  /\ (forall k', abs (fst (exec stk r (KHas k) s)) k' = abs s k').
+Proof. exact get_spec. Qed.
+
+Theorem C04_set_spec : forall stk r k v s, closed s = false ->
+  let s' := fst (exec stk r (KSet k v) s) in
+  snd (exec stk r (KSet k v) s) = OOk /\ closed s' = false /\ (Inv s -> Inv s') /\
+  forall k', abs s' k' = if beqb k' (r ++ k) then Some v else abs s k'.
+Proof. exact set_spec. Qed.
+
+Theorem C04_delete_spec : forall stk r k s, closed s = false ->
+  let s' := fst (exec stk r (KDelete k) s) in
+  snd (exec stk r (KDelete k) s) = OOk /\ closed s' = false /\ (Inv s -> Inv s') /\
+  forall k', abs s' k' = if beqb k' (r ++ k) then None else abs s k'.
+Proof. exact delete_spec. Qed.
+
+(* DeletePrefix / Clear remove exactly the keys carrying realm||prefix (effect and frame in one equation). *)
+Theorem C04_delete_prefix_exact : forall stk r p s, closed s = false ->
+  let s' := fst (exec stk r (KDeletePrefix p) s) in
+  snd (exec stk r (KDeletePrefix p) s) = OOk /\ closed s' = false /\ (Inv s -> Inv s') /\
+  forall k', abs s' k' = if is_prefix (r ++ p) k' then None else abs s k'.
+Proof. exact delete_prefix_spec. Qed.
+
+Theorem C04_clear_exact : forall stk r s, closed s = false ->
+  let s' := fst (exec stk r KClear s) in
+  snd (exec stk r KClear s) = OOk /\ closed s' = false /\ (Inv s -> Inv s') /\
+  forall k', abs s' k' = if is_prefix r k' then None else abs s k'.
+Proof. exact clear_spec. Qed.
+
+(* Views are one map: a write through (r1,k1) is seen through (r2,k2) iff r1||k1 = r2||k2. *)
+Theorem C04_views_are_one_map : forall stk1 stk2 r1 r2 k1 k2 v s, closed s = false ->
+  let s' := fst (exec stk1 r1 (KSet k1 v) s) in
+  (r1 ++ k1 = r2 ++ k2 -> snd (exec stk2 r2 (KGet k2) s') = OVal v) /\
+  (r1 ++ k1 <> r2 ++ k2 -> snd (exec stk2 r2 (KGet k2) s') = snd (exec stk2 r2 (KGet k2) s)).
+Proof. exact views_are_one_map. Qed.
+
+Theorem C04_straddling_realms : forall stk1 stk2 r x k v s, closed s = false ->
+  snd (exec stk2 (r ++ x) (KGet k) (fst (exec stk1 r (KSet (x ++ k) v) s))) = OVal v.
+Proof. exact straddling_realms. Qed.
+
+(* Iterate reports exactly the keys with the prefix inside the realm, realm stripped ... *)
+Theorem C04_iterate_exact : forall r p d s k v, Inv s ->
+  (In (k, v) (iterate r p d (m s)) <-> exists k', k = p ++ k' /\ abs s (r ++ p ++ k') = Some v).
+Proof. exact iterate_exact. Qed.
+
+(* ... in strictly ascending (Backward: descending) byte order, hence every key once ... *)
+Theorem C04_iterate_sorted : forall r p d s, Inv s ->
+  StronglySorted (match d with DBwd => fun a b => blt b a | _ => blt end) (map fst (iterate r p d (m s))).
+Proof. exact iterate_sorted. Qed.
+
+Theorem C04_iterate_nodup : forall r p d s, Inv s -> NoDup (map fst (iterate r p d (m s))).
+Proof. exact iterate_nodup. Qed.
+
+(* ... and stops when the consumer says so (it returns false on its lim-th call); IterateKeys = the keys. *)
+Theorem C04_iterate_stops : forall stk r p d lim s, closed s = false -> d <> DBad ->
+  snd (exec stk r (KIterate p d lim) s) = OKVs (firstn (Nat.max 1 lim) (iterate r p d (m s))) /\
+  snd (exec stk r (KIterateKeys p d lim) s) = OKeys (map fst (firstn (Nat.max 1 lim) (iterate r p d (m s)))) /\
+  (forall k', abs (fst (exec stk r (KIterate p d lim) s)) k' = abs s k').
+Proof. exact iterate_stops. Qed.
+
+(* A batch applies the last operation per key on Commit (bbuild = the batch's two Go maps after the calls) ... *)
+Theorem C04_commit_last_op_per_key : forall stk r ops s, closed s = false ->
+  let c := KCommit (fst (bbuild ops)) (snd (bbuild ops)) in
+  let s' := fst (exec stk r c s) in
+  snd (exec stk r c s) = OOk /\ (Inv s -> Inv s') /\
+  (forall k, abs s' (r ++ k) = match lact ops k with Some a => a | None => abs s (r ++ k) end) /\
+  (forall k', is_prefix r k' = false -> abs s' k' = abs s k').
+Proof. exact commit_last_op_per_key. Qed.
+
+(* ... and nothing on Cancel. *)
+Theorem C04_cancel_noop : forall stk r s, closed s = false ->
+  snd (exec stk r (KCommit [] []) s) = OOk /\ forall k, abs (fst (exec stk r (KCommit [] []) s)) k = abs s k.
+Proof. exact cancel_noop. Qed.
+
+(* After Close every read, write, iteration, view creation, batch creation, Flush and Commit on every view
+   fails with ErrStoreClosed and changes nothing; the store never reopens. *)
+Theorem C04_closed_all_fail : forall stk r o s, closed s = true -> fails_when_closed o = true ->
+  snd (exec stk r o s) = OClosed /\ m (fst (exec stk r o s)) = m s /\ closed (fst (exec stk r o s)) = true.
+Proof. exact closed_all_fail. Qed.
+
+Theorem C04_closed_world_all_fail : forall w o, closed (w_st w) = true -> op_fails_when_closed o = true ->
+  snd (step w o) = OClosed \/ snd (step w o) = OBadHandle.
+Proof. exact closed_world_all_fail. Qed.
+
+Theorem C04_close_spec : forall stk r s,
+  snd (exec stk r KClose s) = OOk /\ closed (fst (exec stk r KClose s)) = true /\ m (fst (exec stk r KClose s)) = m s.
+Proof. exact close_spec. Qed.
+
+Theorem C04_closed_state_frozen : forall h w, closed (w_st w) = true ->
+  m (w_st (fst (run w h))) = m (w_st w) /\ closed (w_st (fst (run w h))) = true.
+Proof. exact closed_state_frozen. Qed.
+
+(* Any stack of flushkv/debug wrappers is transparent; the debug log is the filtered list of calls. *)
+Theorem C04_wrapper_transparent : forall stk r o s,
+  snd (exec stk r o s) = snd (exec [] r o s) /\
+  m (fst (exec stk r o s)) = m (fst (exec [] r o s)) /\
+  closed (fst (exec stk r o s)) = closed (fst (exec [] r o s)) /\
+  log (fst (exec stk r o s)) = rev (log_of stk o) ++ log s.
+Proof. exact wrapper_transparent. Qed.
+
+(* flushkv is flush-on-write: one Flush reaches the store per flushkv wrapper after each successful mutation. *)
+Theorem C04_flush_on_write : forall stk r o s,
+  nfl (fst (exec stk r o s)) = (nfl s + flushes_of stk o (snd (exec [] r o s)))%nat.
+Proof. exact flush_on_write. Qed.
+
+(* ---------- non-vacuity: an open and a closed reachable state with three views and data ---------- *)
+Definition demo : list op :=
+  [OpWithRealm 0 [0]; OpWithExtRealm 1 [255]; OpWrapFlush 2; OpWrapDebug 3 1 [];
+   OpKV 4 (KSet [97] [7]); OpKV 1 (KSet [255; 255] [8]); OpKV 0 (KSet [1] [9])].
+
+Example C04_nonvacuous_open :
+  let s := w_st (fst (run init demo)) in
+  closed s = false /\ Inv s /\ length (m s) = 3%nat /\
+  snd (exec [] [0] (KIterate [255] DBwd 5) s) = OKVs [([255; 255], [8]); ([255; 97], [7])] /\
+  log s = [(1, 16, [[97]; [7]])] /\ nfl s = 1%nat.
+Proof. repeat split; try reflexivity. apply reachable_inv. Qed.
+
+Example C04_nonvacuous_closed :
+  let w := fst (run init (demo ++ [OpKV 3 KClose])) in
+  closed (w_st w) = true /\ length (m (w_st w)) = 3%nat /\ snd (step w (OpKV 1 (KGet [255; 97]))) = OClosed /\
+  op_fails_when_closed (OpKV 1 (KGet [255; 97])) = true.
+Proof. repeat split; reflexivity. Qed.
+
+Example C04_nonvacuous_batch :
+  bbuild [BD [1]; BS [1] [2]; BS [3] [4]; BD [3]] = ([([1], [2])], [[3]]) /\
+  lact [BD [1]; BS [1] [2]; BS [3] [4]; BD [3]] [1] = Some (Some [2]) /\
+  lact [BD [1]; BS [1] [2]; BS [3] [4]; BD [3]] [3] = Some None.
+Proof. repeat split; reflexivity. Qed.
+
+Print Assumptions C04_refines.
+Print Assumptions C04_spec_is_ordered_map.
+Print Assumptions C04_reachable_inv.
+Print Assumptions C04_get_spec.
+Print Assumptions C04_set_spec.
+Print Assumptions C04_delete_spec.
+Print Assumptions C04_delete_prefix_exact.
+Print Assumptions C04_clear_exact.
+Print Assumptions C04_views_are_one_map.
+Print Assumptions C04_straddling_realms.
+Print Assumptions C04_iterate_exact.
+Print Assumptions C04_iterate_sorted.
+Print Assumptions C04_iterate_nodup.
+Print Assumptions C04_iterate_stops.
+Print Assumptions C04_commit_last_op_per_key.
+Print Assumptions C04_cancel_noop.
+Print Assumptions C04_closed_all_fail.
+Print Assumptions C04_closed_world_all_fail.
+Print Assumptions C04_close_spec.
+Print Assumptions C04_closed_state_frozen.
+Print Assumptions C04_wrapper_transparent.
+Print Assumptions C04_flush_on_write.
